@@ -69,7 +69,7 @@ structure LogRow where
   deriving Repr, DecidableEq, Inhabited
 
 /-- one row of table `PreparelistEntity (id, trackId REFERENCES Track (id), trackNumber)`; the library never
-writes it — it is here because it declares a foreign key -/
+inserts into it (Engine does) — it is here because it declares a foreign key, which `remove_track` must honour -/
 structure PrepRow where
   id : Nat
   track : Option Nat
@@ -89,8 +89,9 @@ structure Lib2 where
   logSeq : Nat
   /-- ids of table AlbumArt (the creator inserts the default row 1; referenced by `Track.albumArtId`) -/
   art : List Nat
-  /-- table PreparelistEntity -/
+  /-- table PreparelistEntity and its AUTOINCREMENT counter -/
   prep : List PrepRow
+  prepSeq : Nat
   /-- `Information.schemaVersion{Major,Minor,Patch}` -/
   ver : Int × Int × Int
   deriving Repr, DecidableEq, Inhabited
@@ -102,7 +103,7 @@ def Lib2.uuid (L : Lib2) : Bytes := L.tdb.uuid
 row (random uuid = input), the default album art row -/
 def Lib2.empty (s : Schema2) (uuid : Bytes) : Lib2 :=
   { tdb := TDb.empty uuid, pl := [], plSeq := 0, pe := [], peSeq := 0, log := [], logSeq := 0,
-    art := [1], prep := [], ver := s.version }
+    art := [1], prep := [], prepSeq := 0, ver := s.version }
 
 /-- The crate package's state, with its stand-in for the Track table read off the real one. -/
 def Lib2.crates (L : Lib2) : CDb :=
@@ -205,17 +206,20 @@ def removeTrack (s : Schema2) (t : Nat) : M2 Unit :=
     M2.modify fun L => { L with pe := (ids L.pl).foldl (EngineModel.Db.V2.rmTrackIn (t : Int)) L.pe }
     -- if (schema < 2.20.3) UPDATE ChangeLog SET trackId = NULL WHERE trackId = ?
     if hasChangeLog s then M2.modify fun L => L.logNullify t else pure ()
+    -- DELETE FROM PreparelistEntity WHERE trackId = ?   (this package's fix: the declared ON DELETE CASCADE is not active)
+    M2.modify fun L => { L with prep := L.prep.filter fun r => r.track != some t }
     -- library_->track().remove(tr.id())   (DELETE; rows_modified() == 0 → invalid_argument)
     M2.track (callRemove t)
 
 /-- `database_impl::remove_track` as a statement program on the connection of `Spec/Txn.lean` (the fault model of
 C14: the k-th faultable statement — BEGIN, every DELETE / UPDATE, COMMIT — fails): BEGIN; per playlist the lookup
-(a read) and the DELETE of the entry; before 2.20.3 the UPDATE of ChangeLog; the DELETE of the track, which
+(a read) and the DELETE of the entry; before 2.20.3 the UPDATE of ChangeLog; the DELETE on PreparelistEntity; the DELETE of the track, which
 (through `rows_modified() == 0 → invalid_argument`) fails the call when there is no such row; COMMIT. -/
 def removeTrackBody (s : Schema2) (L : Lib2) (t : Nat) : List (Spec.Txn.Cmd Lib2) :=
   ((ids L.pl).flatMap fun l =>
     [Spec.Txn.Cmd.read, Spec.Stmts.tot fun (M : Lib2) => { M with pe := EngineModel.Db.V2.rmTrackIn (t : Int) M.pe l }]) ++
   (if hasChangeLog s then [Spec.Stmts.tot fun (M : Lib2) => M.logNullify t] else []) ++
+  [Spec.Stmts.tot fun (M : Lib2) => { M with prep := M.prep.filter fun r => r.track != some t }] ++
   [.write fun (M : Lib2) =>
     if (M.tdb.rows.filter fun e => e.id == t).length = 0 then none
     else some { M with tdb := { M.tdb with rows := M.tdb.rows.filter fun e => !(e.id == t) } }]
@@ -270,11 +274,13 @@ inductive Call where
   -- entry for track `t` of ANOTHER database `u` (uuid tag ≠ 0) — such entries may carry the numeric ids of the
   -- library's own tracks and must never be confused with them (fix 9a475eb)
   | foreignEntry (c t u : Int)
+  -- NOT a call of the library either: Engine puts track `t` on its prepare list (a row of PreparelistEntity)
+  | plantPrepare (t : Nat)
   deriving Repr
 
 /-- the public alphabet of the library -/
 def Call.isApi : Call → Bool
-  | .foreignEntry _ _ _ => false
+  | .foreignEntry _ _ _ | .plantPrepare _ => false
   | _ => true
 
 /-- histories the composite theorems range over: the public alphabet, interleaved with foreign entries that are
@@ -373,6 +379,11 @@ def step (ops : FOps) (s : Schema2) (L : Lib2) : Call → Lib2 × Res Out
   -- playlist_entity_table::add_back by another writer, into an existing playlist
   | .foreignEntry c t u =>
     if EngineModel.Db.V2.qValid L.crates c then (crateCall (.peAddBack c t u false) >>= fun _ => (pure Out.unit : M2 Out)) L
+    else (L, .ok .unit)
+  -- INSERT INTO PreparelistEntity (trackId, …) by Engine, for a track that exists
+  | .plantPrepare t =>
+    if (L.tdb.find t).isSome then
+      ({ L with prep := L.prep ++ [⟨L.prepSeq + 1, some t⟩], prepSeq := L.prepSeq + 1 }, .ok .unit)
     else (L, .ok .unit)
 
 /-- any history, whatever the outcomes of its calls (failed calls included) -/
@@ -488,10 +499,13 @@ def logOk (s : Schema2) (L : Lib2) : Bool :=
     | none => true
     | some t => L.trackLive t
 
-/-- the default AlbumArt row exists and every `Track.albumArtId` references an AlbumArt row; PreparelistEntity
-(never written by the library) is empty — `remove_track` would not clean it -/
+/-- the default AlbumArt row exists and every `Track.albumArtId` references an AlbumArt row; every
+PreparelistEntity row references a live track (or none) -/
 def artOk (L : Lib2) : Bool :=
-  L.art.contains 1 && (L.tdb.rows.all fun t => L.art.contains t.row.albumArtId.toNat) && L.prep.isEmpty
+  L.art.contains 1 && (L.tdb.rows.all fun t => L.art.contains t.row.albumArtId.toNat) &&
+  L.prep.all fun r => match r.track with
+    | none => true
+    | some t => L.trackLive t
 
 def infoOk (s : Schema2) (L : Lib2) : Bool := L.ver == s.version
 
@@ -503,7 +517,7 @@ def libChecks (s : Schema2) (L : Lib2) : List (String × Bool) :=
    ("a PlaylistEntity row of this database references a Track row or a Playlist row that does not exist", entityRefsOk L),
    ("ChangeLog: a row references a track that does not exist, ids not a key / beyond the counter, or rows on a schema without the table",
       logOk s L),
-   ("the default AlbumArt row is missing, a Track.albumArtId references no AlbumArt row, or PreparelistEntity is not empty", artOk L),
+   ("the default AlbumArt row is missing, a Track.albumArtId references no AlbumArt row, or a PreparelistEntity row references a track that does not exist", artOk L),
    ("Information row: the version triple differs from the schema's", infoOk s L)]
 
 def libInv (s : Schema2) (L : Lib2) : Bool := (libChecks s L).all (·.2)
